@@ -167,10 +167,6 @@ def finish(prop, spec, tier, seed, t0, M, broken=False, stats=None):
         if isinstance(mn, dict): mn = mn.get(tier, mn.get('quick', 1))
         if M.anchors.get(a, 0) < mn:
             missing.append('%s (%d < %d)' % (a, M.anchors.get(a, 0), mn))
-    if missing:
-        print('ANALYSIS-BROKEN property=%s anchors below floor: %s' % (prop, '; '.join(missing)), file=sys.stderr)
-        if os.path.exists(ev_path): os.unlink(ev_path)
-        return 2
     # dedupe findings by key
     known = load_known()
     kset = {(k['property'], k['rule'], k['file'], k['func'], k['detail']): k for k in known.get('findings', [])}
@@ -180,6 +176,14 @@ def finish(prop, spec, tier, seed, t0, M, broken=False, stats=None):
     viol = []; kn = []
     for k, fs in sorted(groups.items()):
         (kn if k in kset else viol).append((k, fs))
+    if missing and not viol:
+        # an anchor vanished and no rule reported a construct: the analysis cannot vouch for the property (never a pass)
+        print('ANALYSIS-BROKEN property=%s anchors below floor: %s' % (prop, '; '.join(missing)), file=sys.stderr)
+        if os.path.exists(ev_path): os.unlink(ev_path)
+        return 2
+    if missing:
+        # a rule did report a specific construct: that report stands on its own; the vanished anchors are listed with it
+        print('note: anchors below floor (reported together with the violation(s) below): %s' % '; '.join(missing))
     vdir = os.path.join(ev_dir, 'violations'); os.makedirs(vdir, exist_ok=True)
     for old in os.listdir(vdir):
         if old.startswith(prop + '-'): os.unlink(os.path.join(vdir, old))
